@@ -23,6 +23,7 @@ TYPES = [
     "Optional[bool]",
     "Literal['a', 'b']",
     "Literal['a', 'b', 'c']",
+    "Literal['x-y', 'p q']",
     "List[str]",
     "List[int]",
     "Union[int, str]",
@@ -48,10 +49,12 @@ def defaults_for(t):
         d += [("int", 5), ("zero", 0), ("negint", -5), ("bigint", 1234)]
     if b == "float":
         d += [("float", 0.5), ("negfloat", -0.5), ("intfloat", 2.0)]
-    if b == "str" or (t and t.startswith("Literal[")):
-        d += [("str", "a")]
     if b == "str":
-        d += [("strspace", "a b"), ("emptystr", "")]
+        d += [("str", "a")]
+    if t and t.startswith("Literal["):
+        d += [("str", "x-y" if "x-y" in t else "a")]
+    if b == "str":
+        d += [("strspace", "a b"), ("emptystr", ""), ("strdot", "a.b"), ("strquote", 'say "hi"')]
     if b == "bool":
         d += [("true", True), ("false", False)]
     if t and t.startswith("Optional["):
@@ -202,3 +205,9 @@ def vkind(v):
     if isinstance(v, float):
         return "negfloat" if v < 0 else "float"
     return type(v).__name__
+
+
+def str_default_features(ir):
+    """signature features of string defaults that the prose machinery is sensitive to"""
+    ds = [p.get("default") for p in ir["params"].values() if isinstance(p.get("default"), str) and not p["default"].startswith("```")]
+    return dict(dot_in_default=any("." in d for d in ds), quote_in_default=any('"' in d for d in ds))
